@@ -86,6 +86,21 @@ def run(chk):
         progs.append(("corpus:" + name, {"src": src, "path": "/c12_%s.ts" % name}))
     for name, src in c07.T.items():
         progs.append(("await:" + name, {"src": c07.H + src, "path": "/c12_t.ts"}))
+    # modules: the order in which export names come out (namespace keys, host export list) is part of the trace
+    names = ["area", "sides", "zeta", "alpha", "mid", "b2", "k9"]
+    for k in range(1, 7):
+        for variant in range(3):
+            ex = names[:k] if variant != 2 else list(reversed(names[:k]))
+            if variant == 0:
+                lib = "".join("export const %s = %d;\n" % (n, i) for i, n in enumerate(ex))
+            elif variant == 1:
+                lib = "".join("export function %s() { return %d; }\n" % (n, i) for i, n in enumerate(ex))
+            else:
+                lib = "".join("const %s = %d;\n" % (n, i) for i, n in enumerate(ex)) + "export { %s };\n" % ", ".join(ex)
+            main = ("import * as ns from './lib%d';\nexport const first = 1;\nexport function second() { return 2; }\n"
+                    "const viaForIn: string[] = []; for (const key in ns) viaForIn.push(key);\n"
+                    "[Object.keys(ns).join(), viaForIn.join(), Object.entries(ns).map((e) => e[0]).join(), Object.keys({ ...ns }).join()].join('|')" % k)
+            progs.append(("modules:%d:%d" % (k, variant), {"src": main, "path": "/c12m/main.ts", "modules": {"/c12m/lib%d" % k: lib}}))
     n_gen = 30 if chk.tier == "quick" else 300
     for i in range(n_gen):
         g = genprog.Gen(rng, features={}, ts=True)
